@@ -123,6 +123,9 @@ func check(t run.TB, c Case) {
 		return
 	}
 	if err != nil {
+		if (c.Kind == "schema" || c.Kind == "enum") && loneSlashTail(c) && run.MatchKnown("C14-foreign-text-beginning-with-a-slash") {
+			return
+		}
 		run.Fail(t, chk, c, "Len(%q) fails: %v", text, err)
 	}
 	if int(l) != len(c.S) {
@@ -159,7 +162,13 @@ func check(t run.TB, c Case) {
 	}
 }
 
-var tails = []string{"GET /x", "TYPE @a", "200", "Body", "}", ",", "x", ":", "]", "Request", "@next", "\"q\"", "0", "true",
+// loneSlashTail: the matcher of the recorded finding - the foreign text begins with a slash that
+// opens no annotation (neither // nor /*).
+func loneSlashTail(c Case) bool {
+	return strings.HasPrefix(c.Tail, "/") && !strings.HasPrefix(c.Tail, "//") && !strings.HasPrefix(c.Tail, "/*") && strings.Trim(c.Sep, " \t\r\n") == ""
+}
+
+var tails = []string{"/", "/cats", "/ x","GET /x", "TYPE @a", "200", "Body", "}", ",", "x", ":", "]", "Request", "@next", "\"q\"", "0", "true",
 	// foreign text of several lines, with the characters that start comments and annotations
 	"x\ny", "GET /x\n  200", "x/y", "x#c\nz", "x\r\n\r\ny", "Body // c\n{}", "x # c"}
 var safeTails = []string{"GET /x", "TYPE @a", "200", "Body", "x", "Request", "0", "true"}
